@@ -63,7 +63,7 @@ def run(ck):
                        "floating-point sums are compared to 1e-9 relative (re-association across splits)"]
     n = 4
     parts = list(set_partitions(range(1, n + 1)))
-    scn = scenarios(rng, n, 2 if quick else 5)
+    scn = scenarios(rng, n, 2 if quick else 3)
     text, consts, subst = build(n, scn, parts if not quick else parts)
     cfg = mc.cfg(consts=consts, subst=subst, invariants=INV, properties=PROPS, view="View", constraints=["Export"])
     r = tlc.run(ck.work, "MC_GmmStats", cfg, root_text=text, workers=16, coverage=not quick)
@@ -72,7 +72,7 @@ def run(ck):
     behaviours = list(r.records)
     # random behaviours (every order of E-steps / additions, not only one per distinct terminal state)
     cfg2 = mc.cfg(consts=consts, subst=subst, constraints=["Export"])
-    r2 = tlc.run(ck.work, "MC_GmmStats", cfg2, root_text=text, workers=1, simulate=60 if quick else 600, depth=30,
+    r2 = tlc.run(ck.work, "MC_GmmStats", cfg2, root_text=text, workers=1, simulate=60 if quick else 300, depth=30,
                  seed=ck.seed + 1, coverage=False)
     ck.account("stats-heap-simulate", r2)
     behaviours += r2.records
@@ -98,12 +98,12 @@ def run(ck):
         if k not in seen:
             seen.add(k)
             uniq.append(b)
-    limit = 200 if quick else 2000
+    limit = 200 if quick else 900
     if len(uniq) > limit:
         uniq = rng.sample(uniq, limit)
     for b in uniq:
         replay(ck, em, b, rng, n)
-    zl = 90 if quick else 1500
+    zl = 90 if quick else 500
     zrecs.sort(key=lambda b: repr(b["hist"]))
     for b in (rng.sample(zrecs, zl) if len(zrecs) > zl else zrecs):
         replay(ck, em, b, rng, 3)
